@@ -101,6 +101,15 @@ func (rd *Round) EndToEnd() string {
 		if in == nil || in.Tmpl.Empty {
 			continue
 		}
+		forged := false
+		for _, o := range rd.After {
+			if o.Name == d.Name && rd.World.Forged[o.BuildID] {
+				forged = true // a shard the harness wrote with made-up content: only its metadata is meaningful
+			}
+		}
+		if forged {
+			continue
+		}
 		hits, _, _ := searchIndex(rd.World.Index, in.Tmpl.Token[in.Ver])
 		if hits[d.Name] != 1 {
 			return fmt.Sprintf("word of the current HEAD of %q found in %d files of it (want 1)", d.Name, hits[d.Name])
@@ -209,19 +218,33 @@ func (rd *Round) Case34() gen.Case {
 	return c
 }
 
-// hasStray: the index held, before the run, a shard with a discovered repository's name and (normalised) source at a
-// path other than that repository's first shard path, and it is still there.
+// hasStray: the index held, before the run, a shard with a discovered repository's name and (normalised) source outside
+// the contiguous run of shard files <name>_v16.00000, .00001, … that exists for that repository (the only shards the
+// builder looks at and replaces), and that shard is still there.
 func (rd *Round) hasStray() bool {
 	after := map[string]bool{}
 	for _, s := range rd.After {
 		after[s.Path] = true
+	}
+	before := map[string]bool{}
+	for _, s := range rd.Before {
+		before[s.Path] = true
 	}
 	for _, s := range rd.Before {
 		if !after[s.Path] {
 			continue
 		}
 		for _, d := range rd.Desired {
-			if s.Name == d.Name && normSource(rd.World.Base, s.Source) == d.Source && s.Path != ShardPath(rd.World.Index, d.Name, 0) {
+			if s.Name != d.Name || normSource(rd.World.Base, s.Source) != d.Source {
+				continue
+			}
+			managed := false
+			for n := 0; before[ShardPath(rd.World.Index, d.Name, n)]; n++ {
+				if s.Path == ShardPath(rd.World.Index, d.Name, n) {
+					managed = true
+				}
+			}
+			if !managed {
 				return true
 			}
 		}
